@@ -71,16 +71,20 @@ Theorem iteration_never_exceeds_maxiter :
   forall (entry : Type) (step : list entry -> option entry) (evalg cb : entry -> entry)
          (conv_params : list entry -> result params) (n_constraints n_satisfied : entry -> nat)
          (single_atom : bool) (tol : params) (maxiter : nat),
-  maxiter_rejected (Z.of_nat maxiter) = false ->
+  (* the default history (nothing before the start point) always qualifies: maxiter >= 1 is enforced *)
+  (maxiter_rejected (Z.of_nat maxiter) = false -> (length (@nil entry) < maxiter)%nat) /\
+  (* pre = what the constructor put into the history before run(): [] or the `coords=` argument *)
+  forall pre : list entry, (length pre < maxiter)%nat ->
   forall (fuel : nat) (c0 : entry),
   (iteration entry (final_hist entry
-     (loop entry step evalg cb conv_params n_constraints n_satisfied single_atom tol maxiter fuel [evalg c0]))
+     (loop entry step evalg cb conv_params n_constraints n_satisfied single_atom tol maxiter fuel (evalg c0 :: pre)))
    <= maxiter)%nat.
 Proof.
-  intros entry step evalg cb cp nc ns sa tol maxiter Hm fuel c0.
-  assert (M : (1 <= maxiter)%nat).
-  { unfold maxiter_rejected in Hm. first [apply Z.leb_gt in Hm | apply Z.ltb_ge in Hm]; lia. }
-  apply loop_iteration_bound; [cbn [length]; lia|]. unfold iteration, iteration_of. cbn [length]. lia.
+  intros entry step evalg cb cp nc ns sa tol maxiter. split.
+  - intros Hm. unfold maxiter_rejected in Hm. cbn [length].
+    first [apply Z.leb_gt in Hm | apply Z.ltb_ge in Hm]; lia.
+  - intros pre Hp fuel c0.
+    apply loop_iteration_bound; [cbn [length]; lia|]. unfold iteration, iteration_of. cbn [length]. lia.
 Qed.
 
 (* When every step appends a point, maxiter passes are enough: the model's fuel never runs out, i.e.
@@ -88,15 +92,14 @@ Qed.
 Theorem maxiter_passes_suffice :
   forall (entry : Type) (step : list entry -> option entry) (evalg cb : entry -> entry)
          (conv_params : list entry -> result params) (n_constraints n_satisfied : entry -> nat)
-         (single_atom : bool) (tol : params) (maxiter : nat),
-  maxiter_rejected (Z.of_nat maxiter) = false -> (forall h, step h <> None) ->
+         (single_atom : bool) (tol : params) (maxiter : nat) (pre : list entry),
+  (length pre < maxiter)%nat -> (forall h, step h <> None) ->
   forall (c0 : entry) (h' : list entry),
-  run entry step evalg cb conv_params n_constraints n_satisfied single_atom tol maxiter c0 <> OutOfFuel entry h'.
+  run_with entry step evalg cb conv_params n_constraints n_satisfied single_atom tol maxiter pre c0
+    <> OutOfFuel entry h'.
 Proof.
-  intros entry step evalg cb cp nc ns sa tol maxiter Hm Hs c0 h'.
-  assert (M : (1 <= maxiter)%nat).
-  { unfold maxiter_rejected in Hm. first [apply Z.leb_gt in Hm | apply Z.ltb_ge in Hm]; lia. }
-  unfold run. apply loop_fuel_suffices; [exact Hs|cbn [length]; lia| |];
+  intros entry step evalg cb cp nc ns sa tol maxiter pre Hp Hs c0 h'.
+  unfold run_with. apply loop_fuel_suffices; [exact Hs|cbn [length]; lia| |];
     unfold iteration, iteration_of; cbn [length]; lia.
 Qed.
 
@@ -107,20 +110,21 @@ Qed.
 Theorem stops_at_limit_reports_truth :
   forall (entry : Type) (step : list entry -> option entry) (evalg cb : entry -> entry)
          (conv_params : list entry -> result params) (n_constraints n_satisfied : entry -> nat)
-         (tol : params) (maxiter : nat) (c0 : entry) (h' : list entry),
-  maxiter_rejected (Z.of_nat maxiter) = false ->
-  run entry step evalg cb conv_params n_constraints n_satisfied false tol maxiter c0 = Done entry h' ->
+         (tol : params) (maxiter : nat) (pre : list entry) (c0 : entry) (h' : list entry),
+  (length pre < maxiter)%nat ->
+  run_with entry step evalg cb conv_params n_constraints n_satisfied false tol maxiter pre c0 = Done entry h' ->
   (converged entry conv_params n_constraints n_satisfied false tol h' = Ok true \/
    iteration entry h' = maxiter) /\
   (reported entry conv_params n_constraints n_satisfied false tol (Done entry h') = Ok true <->
    exists c r cp, h' = c :: r /\ conv_params h' = Ok cp /\ n_constraints c = n_satisfied c /\
                   meets_criteria tol cp = Ok true).
 Proof.
-  intros entry step evalg cb cp nc ns tol maxiter c0 h' Hm Hrun. split.
+  intros entry step evalg cb cp nc ns tol maxiter pre c0 h' Hp Hrun. split.
   - destruct (loop_done_inv entry step evalg cb cp nc ns false tol maxiter _ _ _ Hrun) as [C|E];
       [left; exact C|right].
-    pose proof (iteration_never_exceeds_maxiter entry step evalg cb cp nc ns false tol maxiter Hm maxiter c0) as B.
-    unfold run in Hrun. rewrite Hrun in B. cbn [final_hist] in B.
+    destruct (iteration_never_exceeds_maxiter entry step evalg cb cp nc ns false tol maxiter) as [_ B].
+    specialize (B pre Hp maxiter c0).
+    unfold run_with in Hrun. rewrite Hrun in B. cbn [final_hist] in B.
     unfold exceeded_now, exceeded in E. apply Nat.leb_le in E. lia.
   - unfold reported. cbn [final_hist]. split.
     + intros H. exact (converged_requires_constraints entry cp nc ns tol h' H).
@@ -158,17 +162,25 @@ Theorem nonnegative_measures_accepted :
      (forall a e, getattr p a = Some e -> e = PInf \/ exists x, e = Fin x /\ 0 <= x) -> construct p = Ok p) /\
   (forall (sqrtf : Qc -> Qc), (forall y, 0 <= sqrtf y) ->
    forall (l : point) (k : option point), p_e l <> None -> (forall k', k = Some k' -> p_e k' <> None) ->
+   (* numpy raises on empty / differently long vectors where the total model computes 0: excluded *)
+   (forall g, p_g l = Some g -> g <> []) -> p_x l <> [] ->
+   (forall k', k = Some k' -> length (p_x k') = length (p_x l)) ->
    exists p, conv_params_of sqrtf l k = Ok p /\ construct p = Ok p).
 Proof.
   split; [exact construct_legit|].
-  intros sqrtf Hs l k El Ek. destruct (conv_params_of_ok sqrtf Hs l k El Ek) as [p [E [V _]]].
+  intros sqrtf Hs l k El Ek _ _ _. destruct (conv_params_of_ok sqrtf Hs l k El Ek) as [p [E [V _]]].
   exists p. split; assumption.
 Qed.
 
-(* Only the gradient within the constraint surface is counted: components of the internal gradient at
+(* PARTIAL.  Proved: components of the internal gradient at the indexes handed over as `inactive` never reach
+   cart_proj_g, and the max measure bounds every Cartesian component of what is counted.  NOT proved: that the
+   inactive indexes are exactly the satisfied constraints' modes and that removing them is the projection onto
+   the constraint surface — that needs the structure of B (Schmidt-orthogonalised U, dic.py:367-381), which is
+   neither modelled nor translated; it is exercised by check_cart_proj_g and the constrained-run oracles.
+   Only the gradient within the constraint surface is counted: components of the internal gradient at
    inactive indexes (the satisfied constraints) never reach cart_proj_g, and the max measure bounds every
    Cartesian component of what is counted. *)
-Theorem projected_gradient_masks_satisfied_constraints :
+Theorem projected_gradient_masks_inactive_components_partial :
   (forall ncart B inactive g g', length g = length g' ->
      (forall i, ~ In i inactive -> nth i g (Q2Qc 0) = nth i g' (Q2Qc 0)) ->
      cart_proj_g ncart B inactive g = cart_proj_g ncart B inactive g') /\
@@ -186,18 +198,81 @@ Theorem constraints_met_within_tolerance : forall deltas : list Qc,
   forall d, In d deltas -> - constraint_tol <= d /\ d <= constraint_tol.
 Proof. exact all_satisfied_within_tol. Qed.
 
-(* The final history entry is a point whose energy and gradient were evaluated after it was created (the
-   last operation on it is the gradient update) — for any step function, at every pass and at the end.
-   (That the species object mirrors this entry is exercised on the implementation, not proved.) *)
-Theorem final_point_is_last_evaluated :
+(* The species holds the last evaluated point.  State = (history, species); only the gradient update writes the
+   species (snapshot `snap` of the entry it evaluated).  For any step / gradient / callback functions, any
+   prefix, every number of passes: the history component is the model loop's history, its final entry is a point
+   that was evaluated after it was created, and the species holds exactly the snapshot of that entry.  (Depends
+   on the ORDER of the translated loop body; that snap is "coordinates, energy, gradient" of the real species
+   is exercised by the species|state-not-last-evaluated oracle.) *)
+Theorem species_holds_last_evaluated_point :
   forall (entry : Type) (step : list entry -> option entry) (evalg cb : entry -> entry)
          (conv_params : list entry -> result params) (n_constraints n_satisfied : entry -> nat)
-         (single_atom : bool) (tol : params) (maxiter fuel : nat) (c0 : entry),
-  exists c r,
-    final_hist entry (loop entry step evalg cb conv_params n_constraints n_satisfied single_atom tol maxiter
-                           fuel [evalg c0]) = evalg c :: r.
+         (single_atom : bool) (tol : params) (maxiter fuel : nat) (Sp : Type) (snap : entry -> Sp)
+         (pre : list entry) (c0 : entry),
+  let x := loop2 entry step evalg cb conv_params n_constraints n_satisfied single_atom tol maxiter Sp snap fuel
+                 (evalg c0 :: pre, snap (evalg c0)) in
+  fst x = final_hist entry (loop entry step evalg cb conv_params n_constraints n_satisfied single_atom tol
+                                 maxiter fuel (evalg c0 :: pre)) /\
+  exists c r, fst x = evalg c :: r /\ snd x = snap (evalg c).
 Proof.
-  intros. apply loop_evaluated. exists c0, []. reflexivity.
+  intros. apply (loop2_spec entry step evalg cb conv_params n_constraints n_satisfied single_atom tol maxiter
+                            Sp snap fuel (evalg c0 :: pre, snap (evalg c0))).
+  exists c0, pre. split; reflexivity.
+Qed.
+
+(* COMPOSITION on concrete history entries (energy, Cartesian coordinates, projected gradient, one deviation per
+   constrained primitive), with conv_params = the hand model of OptimiserHistory.conv_params on the last two
+   entries and the constraint counters = the model of n_constraints / n_satisfied_constraints:
+   `converged` = True  ==>  every constraint deviation is within the tolerance, RMS and max of the counted
+   gradient of the FINAL entry are within their thresholds, and |dE| and the last step (RMS, max) between the
+   final two entries are within 3x theirs.  (sqrtf is the square-root oracle; only its sign is used.) *)
+Theorem converged_point_within_tolerances :
+  forall (sqrtf : Qc -> Qc) (tol : params) (l : cpoint) (rest : list cpoint),
+  (forall y, 0 <= sqrtf y) -> construct tol = Ok tol ->
+  concrete_converged sqrtf tol (l :: rest) = Ok true ->
+  (forall d, In d (cp_deltas l) -> - constraint_tol <= d /\ d <= constraint_tol) /\
+  (forall t, rms_g tol = Some (Fin t) -> exists g, p_g (cp_pt l) = Some g /\ rms sqrtf g <= Q2Qc 1 * t) /\
+  (forall t, max_g tol = Some (Fin t) -> exists g, p_g (cp_pt l) = Some g /\ maxabs g <= Q2Qc 1 * t) /\
+  (forall t, abs_d_e tol = Some (Fin t) -> exists k rest' el ek, rest = k :: rest' /\
+      p_e (cp_pt l) = Some el /\ p_e (cp_pt k) = Some ek /\ Qcabs (el - ek) <= qc 3 1 * t) /\
+  (forall t, rms_s tol = Some (Fin t) -> exists k rest', rest = k :: rest' /\
+      rms sqrtf (lsub (p_x (cp_pt l)) (p_x (cp_pt k))) <= qc 3 1 * t) /\
+  (forall t, max_s tol = Some (Fin t) -> exists k rest', rest = k :: rest' /\
+      maxabs (lsub (p_x (cp_pt l)) (p_x (cp_pt k))) <= qc 3 1 * t).
+Proof.
+  intros sqrtf tol l rest Hs Vt H. unfold concrete_converged in H.
+  destruct (converged_requires_constraints _ _ _ _ _ _ H) as [c [r [v [Eh [Ev [En Em]]]]]].
+  injection Eh as <- <-.
+  split; [exact (all_satisfied_within_tol _ (eq_sym En))|].
+  assert (Inv : exists k, conv_params_of sqrtf (cp_pt l) k = Ok v /\
+                (k = None -> rest = []) /\ (forall k', k = Some k' -> exists kc rest', rest = kc :: rest' /\ k' = cp_pt kc)).
+  { cbn [concrete_conv] in Ev. destruct rest as [|kc rest'].
+    - exists None. split; [exact Ev|]. split; [reflexivity|discriminate].
+    - exists (Some (cp_pt kc)). split; [exact Ev|]. split; [discriminate|].
+      intros k' E. injection E as <-. exists kc, rest'. split; reflexivity. }
+  destruct Inv as [k [Ek [Kn Ks]]].
+  destruct (conv_params_of_inv sqrtf (cp_pt l) k v Ek) as [Vv [Erg [Emg Erest]]].
+  destruct (converged_implies_thresholds tol v Vt Vv Em) as [Wrg [Wmg [Wde [Wrs Wms]]]].
+  split; [|split]; [| |split; [|split]].
+  - intros t Ht. destruct (within_fin _ _ _ _ Wrg Ht _ Erg) as [x [Ex Hle]].
+    destruct (p_g (cp_pt l)) as [g|]; [|discriminate]. injection Ex as <-. exists g. split; [reflexivity|exact Hle].
+  - intros t Ht. destruct (within_fin _ _ _ _ Wmg Ht _ Emg) as [x [Ex Hle]].
+    destruct (p_g (cp_pt l)) as [g|]; [|discriminate]. injection Ex as <-. exists g. split; [reflexivity|exact Hle].
+  - intros t Ht. destruct k as [k'|].
+    + destruct Erest as [el [ek [Eel [Eek [Ede _]]]]]. destruct (Ks k' eq_refl) as [kc [rest' [-> ->]]].
+      destruct (within_fin _ _ _ _ Wde Ht _ Ede) as [x [Ex Hle]]. injection Ex as <-.
+      exists kc, rest', el, ek. repeat split; assumption.
+    + destruct Erest as [Ede _]. destruct (within_fin _ _ _ _ Wde Ht _ Ede) as [x [Ex _]]. discriminate.
+  - intros t Ht. destruct k as [k'|].
+    + destruct Erest as [el [ek [_ [_ [_ [Ers _]]]]]]. destruct (Ks k' eq_refl) as [kc [rest' [-> ->]]].
+      destruct (within_fin _ _ _ _ Wrs Ht _ Ers) as [x [Ex Hle]]. injection Ex as <-.
+      exists kc, rest'. split; [reflexivity|exact Hle].
+    + destruct Erest as [_ [Ers _]]. destruct (within_fin _ _ _ _ Wrs Ht _ Ers) as [x [Ex _]]. discriminate.
+  - intros t Ht. destruct k as [k'|].
+    + destruct Erest as [el [ek [_ [_ [_ [_ Ems]]]]]]. destruct (Ks k' eq_refl) as [kc [rest' [-> ->]]].
+      destruct (within_fin _ _ _ _ Wms Ht _ Ems) as [x [Ex Hle]]. injection Ex as <-.
+      exists kc, rest'. split; [reflexivity|exact Hle].
+    + destruct Erest as [_ [_ Ems]]. destruct (within_fin _ _ _ _ Wms Ht _ Ems) as [x [Ex _]]. discriminate.
 Qed.
 
 (* ---- non-vacuity: the hypotheses are satisfiable and the 3x relaxation is really reachable ---- *)
@@ -221,3 +296,9 @@ Example nonvacuous_limit :
   o = Done nat [3; 2; 1; 0]%nat /\
   reported nat (fun _ => Ok far) (fun _ => 0%nat) (fun _ => 0%nat) false (ex_c false) o = Ok false.
 Proof. vm_compute. split; reflexivity. Qed.
+
+(* the premise of converged_point_within_tolerances is satisfiable: two concrete entries, one satisfied constraint *)
+Example nonvacuous_concrete :
+  let pt e := mkCP (mkPoint (Some e) [qc 1 2; qc 1 4] (Some [qc 1 1000; qc (-1) 2000])) [qc 1 100000] in
+  concrete_converged (fun y => Qcabs y) (ex_c false) [pt (qc 1 1000); pt (qc 1 500)] = Ok true.
+Proof. vm_compute. reflexivity. Qed.
